@@ -328,7 +328,8 @@ private:
 
       using channel_t = typename channel_traits<typename element_type<typename Indices_View::value_type>::type>::value_type;
 
-      int num_colors = channel_traits< channel_t >::max_value();
+      // one palette entry per index value, 0 .. max_value() (the scanline reader has it right)
+      int num_colors = channel_traits< channel_t >::max_value() + 1;
 
       rgb16_planar_view_t palette = planar_rgb_view( num_colors
                                                    , 1
